@@ -9,7 +9,9 @@ import (
 	"time"
 
 	"github.com/form3tech-oss/f1/v2/internal/metrics"
+	"github.com/form3tech-oss/f1/v2/internal/options"
 	"github.com/form3tech-oss/f1/v2/internal/progress"
+	"github.com/form3tech-oss/f1/v2/internal/run"
 	"github.com/form3tech-oss/f1/v2/internal/verifhook"
 )
 
@@ -42,13 +44,17 @@ func init() {
 	// output: one token per S/T op with the returned snapshot.
 	register("progress.seq", func(a []string) string {
 		st := &progress.Stats{}
+		// snapshots and totals are taken the way a run takes them: through its Result
+		res := run.NewResult(options.RunOptions{Scenario: "s"}, sharedViews, st)
 		var out []string
 		for _, op := range strings.Split(a[0], ",") {
 			switch op[0] {
 			case 'S':
-				out = append(out, fullSnap(st.Snapshot(time.Duration(atoi64(op[1:])))))
+				res.SnapshotProgress(time.Duration(atoi64(op[1:])))
+				out = append(out, fullSnap(res.Snapshot()))
 			case 'T':
-				out = append(out, fullSnap(st.Total()))
+				res.GetTotals()
+				out = append(out, fullSnap(res.Snapshot()))
 			default:
 				recordOp(st, op)
 			}
